@@ -1,9 +1,25 @@
-import Autog.Lemmas.BezierHull
-/-! # C20
-    Bezier hull. -/
+import Autog.Spec.Geom
+/-! # C20 — fitted splines stay inside their corridor
+
+    PARTIAL. The fitter (`geom.FitSpline`, Schneider fitting with `Hypot`, `Cbrt`, `Atan2`, `Cos`) has no executable model:
+    its floating-point results differ by ulps from any exact evaluation. The property is decided per returned spline by a
+    VERIFIED CHECKER over exact rationals:
+    * `bezierInside_sound`: a piece accepted by the recursive de Casteljau / control-box check lies in the union of the
+      (tolerance-grown) rectangles for EVERY parameter in [0, 1] — from the hull bound `bez_ge`/`bez_le` and the two halving
+      identities `bez_left`/`bez_right`;
+    * ends and joins are decidable equalities.
+    Termination of the fitter and the root finder are observed (watchdog, exactly validated ground truth), not proved. -/
 
 namespace Autog
 
-theorem C20_bez_ge : type_of% @BezierHull.bez_ge := @BezierHull.bez_ge
+theorem C20_piece_checker_sound : type_of% @bezierInside_sound := @bezierInside_sound
+theorem C20_hull_lower : type_of% @BezierHull.bez_ge := @BezierHull.bez_ge
+theorem C20_hull_upper : type_of% @bez_le := @bez_le
+theorem C20_halving_left : type_of% @left_at := @left_at
+theorem C20_halving_right : type_of% @right_at := @right_at
+
+def exPiece : Piece := ⟨(1, 0), (1, 1), (3, 1), (3, 2)⟩
+example : bezierInside [⟨0, 4, 0, 2⟩] 0 exPiece = true := by decide +kernel
+example : bezierInside [⟨0, 2, 0, 2⟩] 6 exPiece = false := by decide +kernel
 
 end Autog
